@@ -19,12 +19,14 @@ Accepted subset (anything else inside a translated function is a TranslationErro
   thub         `return ARM if isinstance(name, name) else ARM`, ARM = `data` | `StreamTeeHub(names)`
   hub __init__ `super(StreamTeeHub, self).__init__(names)` | `v = super(StreamTeeHub, self).__iter__()` |
                `self._iters = list(it.tee(name, name))`
+  tee          `if isinstance(name, (names)): return ARM` `else: return ARM` (or fall-through), ARM =
+               `tuple(Stream(v) for v in it.tee(name, name))` | `tuple(name for v in xrange(name))`
   hub methods  `name = wraps(Stream.name)(lambda self, PARAMS: Stream(self).METH(ARGS))` |
                `if self._iters:` BODY-with-`self._iters[0]`-as-data-slot, then `iter(self)` |
                `try: return self._iters.pop()  except IndexError: raise Name(...)` | a plain body
 
 Normalised away: whitespace, comments, docstrings, the names of tee-bound locals (renamed t0, t1, … in binding
-order; locals of StreamTeeHub.__init__: v0, v1, …), the name of the nested generator and of its loop variables, the message of a `raise`.
+order; locals of StreamTeeHub.__init__: v0, v1, …), the generator variables of tee, the name of the nested generator and of its loop variables, the message of a `raise`.
 """
 import ast
 import os
@@ -43,7 +45,6 @@ NOT_TRANSLATED = {
                        "tied by the `calls` histories",
     "Stream.__iter__": "`return self._data`: the object plumbing of the history model (pool of objects), no body to translate",
     "StreamTeeHub.__del__": "object-lifetime effect outside the Lean model (behavioural extra check)",
-    "lazy_itertools.tee": "isinstance(data, (Stream, Iterator)) dispatch + generator expressions over it.tee: hand model (step .tee / elabCall .tee)",
     "count spellings (elabTake / elabLimit / elabSkip)": "what CPython's isinf / round / islice accept for bool, Fraction, huge ints: "
                                                         "semantics of builtins, not source text of the repo",
 }
@@ -55,6 +56,14 @@ class TranslationError(Exception):
 
 def _fail(node, what):
     raise TranslationError("line %s: %s: %s" % (getattr(node, "lineno", "?"), what, ast.unparse(node)[:100]))
+
+
+ISRC_REL = os.path.join("audiolazy", "lazy_itertools.py")
+
+
+def read_isource():
+    with open(os.path.join(common.REPO, ISRC_REL)) as f:
+        return f.read()
 
 
 def read_source():
@@ -444,6 +453,57 @@ def hub_init(fn):
 
 
 # ------------------------------------------------------------------------------------------------
+# lazy_itertools.tee
+# ------------------------------------------------------------------------------------------------
+def _tuple_genexp(node):
+    """`tuple(ELT for v in ITER)` -> (ELT, v, ITER) or None"""
+    if not (_plain_call(node, 1) and _is_name(node.func, "tuple") and isinstance(node.args[0], ast.GeneratorExp)):
+        return None
+    g = node.args[0]
+    if len(g.generators) != 1:
+        return None
+    c = g.generators[0]
+    if c.ifs or c.is_async or not isinstance(c.target, ast.Name):
+        return None
+    return g.elt, c.target.id, c.iter
+
+
+def tee_def(fn):
+    """`if isinstance(data, (K, ...)): return tuple(Stream(cp) for cp in it.tee(data, n))` /
+       `else: return tuple(data for unused in xrange(n))` (the else may be spelled as the statement after the if)"""
+    body = [s for s in fn.body if not _is_doc(s)]
+    if fn.decorator_list or not body or not isinstance(body[0], ast.If) or len(body[0].body) != 1:
+        _fail(fn, "tee outside the subset (if isinstance(...): return ... else: return ...)")
+    i = body[0]
+    rest = i.orelse if i.orelse else body[1:]
+    if (i.orelse and len(body) != 1) or len(rest) != 1 or not isinstance(i.body[0], ast.Return) \
+            or not isinstance(rest[0], ast.Return):
+        _fail(fn, "tee outside the subset (one return per arm)")
+    t = i.test
+    if not (_plain_call(t, 2) and _is_name(t.func, "isinstance") and isinstance(t.args[0], ast.Name)):
+        _fail(t, "tee: test outside the subset")
+    k = t.args[1]
+    ks = k.elts if isinstance(k, ast.Tuple) else [k]
+    if not all(isinstance(x, ast.Name) for x in ks):
+        _fail(t, "tee: classes outside the subset (names)")
+
+    def arm(r):
+        got = _tuple_genexp(r.value) if r.value is not None else None
+        if got is None:
+            _fail(r, "tee: arm outside the subset (tuple(generator expression))")
+        elt, v, src = got
+        if (_plain_call(elt, 1) and _is_name(elt.func, "Stream") and _is_name(elt.args[0], v) and _plain_call(src, 2)
+                and _is_it(src.func, "tee") and all(isinstance(a, ast.Name) and a.id != v for a in src.args)):
+            return '(.streamsOfTee "%s" "%s")' % (src.args[0].id, src.args[1].id)
+        if (isinstance(elt, ast.Name) and elt.id != v and _plain_call(src, 1) and _is_name(src.func, "xrange")
+                and isinstance(src.args[0], ast.Name) and src.args[0].id != v):
+            return '(.repeatOf "%s" "%s")' % (elt.id, src.args[0].id)
+        _fail(r, "tee: arm outside the subset")
+    return '{ test := ("%s", %s), thenR := %s, elseR := %s }' % (
+        t.args[0].id, _lean_list('"%s"' % x.id for x in ks), arm(i.body[0]), arm(rest[0]))
+
+
+# ------------------------------------------------------------------------------------------------
 # the whole file
 # ------------------------------------------------------------------------------------------------
 def _class(tree, name):
@@ -474,9 +534,11 @@ def _one(members, cls, name, kind):
     return got[0]
 
 
-def parse(text):
-    """-> (progs [(field, lean term)], sigs [(qualified name, [(param, default|None)])])"""
+def parse(text, itext=None):
+    """-> (progs [(field, lean term)], sigs [(qualified name, [(param, default|None)])]);
+    `text`: lazy_stream.py, `itext`: lazy_itertools.py (read from the repo under test when not given)"""
     tree = ast.parse(text)
+    itree = ast.parse(read_isource() if itext is None else itext)
     sm, hm = _members(_class(tree, "Stream")), _members(_class(tree, "StreamTeeHub"))
     progs, sigs = [], []
     for m in STREAM_METHODS:
@@ -504,6 +566,11 @@ def parse(text):
     progs.append(("thub", thub_def(found[0])))
     progs.append(("hubInit", init_term))
     sigs += [init_sig, ("thub", _sig(found[0]))]
+    found = [n for n in itree.body if isinstance(n, ast.FunctionDef) and n.name == "tee"]
+    if len(found) != 1:
+        raise TranslationError("lazy_itertools.tee: found %d times" % len(found))
+    progs.append(("tee", tee_def(found[0])))
+    sigs.append(("lazy_itertools.tee", _sig(found[0])))
     # a StreamTeeHub method that is translated for Stream and silently overridden otherwise would escape: refuse
     extra = sorted(set(hm) & set(STREAM_METHODS) - set(HUB_DEFS) - set(HUB_LAMBDAS))
     if extra:
@@ -517,13 +584,14 @@ def _lean_str(s):
     return '"%s"' % s
 
 
-def translate(text):
-    progs, sigs = parse(text)
+def translate(text, itext=None):
+    progs, sigs = parse(text, itext)
     lines = ["/- GENERATED by harness/props/c03_tr.py from audiolazy/lazy_stream.py (method bodies and signatures of",
-             "   Stream / StreamTeeHub read with `ast`).  Do not edit: rewritten on every check. -/",
+             "   Stream / StreamTeeHub, thub) and audiolazy/lazy_itertools.py (tee), read with `ast`.",
+             "   Do not edit: rewritten on every check. -/",
              "import ALV.Model.C03Src", "namespace ALV.Gen.C03", "open ALV.C03.Src", ""]
     for name, term in progs:
-        ty = {"thub": "ThubBody", "hubInit": "List HIStmt"}.get(name, "HubBody" if name.startswith("hub") else "Body")
+        ty = {"thub": "ThubBody", "hubInit": "List HIStmt", "tee": "TeeBody"}.get(name, "HubBody" if name.startswith("hub") else "Body")
         lines += ["def %s : %s :=" % (name if name != "filter" else "filter", ty), "  " + term, ""]
     lines += ["def progs : Progs :=",
               "  { " + ", ".join("%s := %s" % (n, n) for n, _ in progs) + " }", "",
@@ -596,7 +664,18 @@ EDITS = [
      "    super(StreamTeeHub, self).__init__(data)\n    iter_self = super(StreamTeeHub, self).__iter__()\n",
      "    iter_self = super(StreamTeeHub, self).__iter__()\n    super(StreamTeeHub, self).__init__(data)\n"),
     ("hub init: parameters swapped", "def __init__(self, data, n):\n    super(StreamTeeHub", "def __init__(self, n, data):\n    super(StreamTeeHub"),
+    ("tee: Stream dropped from the isinstance test", "if isinstance(data, (Stream, Iterator)):", "if isinstance(data, Iterator):"),
+    ("tee: the copies are not wrapped in Stream", "return tuple(Stream(cp) for cp in it.tee(data, n))",
+     "return tuple(cp for cp in it.tee(data, n))"),
+    ("tee: arms swapped", "    return tuple(Stream(cp) for cp in it.tee(data, n))\n  else:\n    return tuple(data for unused in xrange(n))",
+     "    return tuple(data for unused in xrange(n))\n  else:\n    return tuple(Stream(cp) for cp in it.tee(data, n))"),
+    ("tee: default of n changed", "def tee(data, n=2):", "def tee(data, n=3):"),
     ("take: default of n changed", "def take(self, n=None, constructor=list):", "def take(self, n=1, constructor=list):"),
+]
+IHARMLESS = [
+    ("tee: generator variables renamed, else spelled as fall-through",
+     "    return tuple(Stream(cp) for cp in it.tee(data, n))\n  else:\n    return tuple(data for unused in xrange(n))",
+     "    return tuple(Stream(c) for c in it.tee(data, n))\n  return tuple(data for _ in xrange(n))"),
 ]
 HARMLESS = [
     ("hub init: local renamed", "    iter_self = super(StreamTeeHub, self).__iter__()\n    self._iters = list(it.tee(iter_self, n))",
@@ -613,12 +692,13 @@ HARMLESS = [
 ]
 
 
-def selftest(text=None, committed=None):
+def selftest(text=None, committed=None, itext=None):
     """-> list of (name, ok, detail)"""
     text = read_source() if text is None else text
+    itext = read_isource() if itext is None else itext
     out = []
     try:
-        base = translate(text)
+        base = translate(text, itext)
     except Exception as e:
         return [("translator-selftest", False, "the unchanged source does not translate: %s" % e)]
     if committed is not None:
@@ -628,6 +708,20 @@ def selftest(text=None, committed=None):
                     "lean/%s: %d bytes generated, %d committed" % (GEN_REL, len(base), len(committed))))
     missed, inapplicable, how = [], [], {}
     for name, old, new in EDITS:
+        if name.startswith("tee:"):                          # an edit of lazy_itertools.py
+            if itext.count(old) != 1:
+                inapplicable.append(name)
+                continue
+            try:
+                got = translate(text, itext.replace(old, new))
+                how[name] = "different text" if got != base else "SAME TEXT"
+                if got == base:
+                    missed.append(name)
+            except TranslationError:
+                how[name] = "TranslationError"
+            except SyntaxError:
+                missed.append(name + " (edit does not parse)")
+            continue
         if text.count(old) != 1 and not name.startswith("hub"):
             inapplicable.append(name)
             continue
@@ -638,7 +732,7 @@ def selftest(text=None, committed=None):
         k = text.rfind(old)
         edited = text[:k] + new + text[k + len(old):]
         try:
-            got = translate(edited)
+            got = translate(edited, itext)
             how[name] = "different text" if got != base else "SAME TEXT"
             if got == base:
                 missed.append(name)
@@ -652,6 +746,13 @@ def selftest(text=None, committed=None):
                 "missed %r; edits whose anchor text is not in the source under test (not applied) %r; %r"
                 % (missed, inapplicable, how)))
     noisy = []
+    for name, old, new in IHARMLESS:
+        if itext.count(old) == 1:
+            try:
+                if translate(text, itext.replace(old, new)) != base:
+                    noisy.append(name)
+            except Exception as e:
+                noisy.append("%s (%s)" % (name, e))
     for name, *pairs in HARMLESS:
         edited = text
         for old, new in zip(pairs[0::2], pairs[1::2]):
@@ -662,11 +763,11 @@ def selftest(text=None, committed=None):
         if edited is None:
             continue
         try:
-            if translate(edited) != base:
+            if translate(edited, itext) != base:
                 noisy.append(name)
         except Exception as e:
             noisy.append("%s (%s)" % (name, e))
-    out.append(("translator-normalises-harmless-rewrites(%d)" % len(HARMLESS), not noisy, "changed the output: %r" % (noisy,)))
+    out.append(("translator-normalises-harmless-rewrites(%d)" % (len(HARMLESS) + len(IHARMLESS)), not noisy, "changed the output: %r" % (noisy,)))
     return out
 
 
